@@ -87,6 +87,38 @@ def run(chk: Check):
                 j = next(i for i in range(len(losses)) if f2h(losses[i]) != f2h(np.frombuffer(l0)[i]))
                 chk.fail(f"{name} modified the history losses passed to it: entry {j} was {float(np.frombuffer(l0)[j])!r}, is now {float(losses[j])!r}",
                          {"case": {"kind": "mut", "sampler": name, "losses": np.frombuffer(l0).tolist()}})
+    # ---------------- (a') a growing history, a NEW array at every call as the calibrator passes it (np.vstack), the best point moving:
+    # every array handed over at ANY earlier call must still be intact after every later call (a sampler may keep views of them)
+    for _ in range(4 if chk.tier == "quick" else 50):
+        sp, bounds, prec = gen_space(rng, chk)
+        if sp.dims > 4:
+            continue
+        for name in NAMES:
+            bs = rng.randint(1, 3)
+            smp = ch.make_builtin(name, bs, ch.SMALL_OPTS.get(name), rng.randrange(10 ** 6))
+            pts, _ = gen_history(rng, sp, rng.randint(max(bs, 5), 9))
+            losses = np.array([5.0 + rng.random() for _ in range(len(pts))])
+            handed = []      # (call index, points array, its bytes when handed over, losses array, its bytes)
+            outcome = "ok"
+            ncalls = 5 if name not in ("GaussianProcessSampler", "CORSSampler") else 3
+            with quiet(), warnings.catch_warnings():
+                warnings.simplefilter("ignore")
+                for c in range(ncalls):
+                    handed.append((c, pts, pts.tobytes(), losses, losses.tobytes()))
+                    try:
+                        out = smp.sample(sp, pts, losses)
+                    except Exception as e:  # noqa: BLE001
+                        outcome = type(e).__name__
+                        break
+                    for (c0, pa, pb, la, lb) in handed:
+                        if pa.tobytes() != pb or la.tobytes() != lb:
+                            chk.fail(f"{name} altered the history array it was given at call {c0} while serving call {c} (a new array is passed at every call)",
+                                     {"case": {"kind": "mut_growing", "sampler": name, "bounds": bounds, "precision": prec}})
+                            break
+                    # the proposals enter the history with ever lower losses: the best point changes at every call
+                    pts = np.vstack([pts, out]); losses = np.concatenate([losses, [4.0 - c - 0.1 * j for j in range(len(out))]])
+            chk.case(["mut_growing", name, bounds, prec, bs], True, {"sampler": name, "calls": ncalls, "outcome": outcome})
+            chk.count(f"nomut_growing:{name}")
     # ---------------- (b) surrogate selection
     n_b = 40 if chk.tier == "quick" else 500
     for _ in range(n_b):
